@@ -146,6 +146,10 @@ def make(rng, kind, d=2):
         def build():
             kern = [None, R2LogR2RBF(s.points.copy()), R2LogRRBF(s.points.copy())][k]
             return mt.ThinPlateSplines(s.copy(), t.copy(), kernel=kern, min_singular_val=msv)
+        if rng.random() < 0.3:
+            # another spline on the very same source landmarks was built earlier in this process - with the other kernel
+            # (two models of one annotation set): it is none of this one's business
+            mt.ThinPlateSplines(s.copy(), t.copy(), kernel=[R2LogRRBF(s.points.copy()), None, R2LogR2RBF(s.points.copy())][k], min_singular_val=msv)
         return build(), build
     if kind in ("R2LogR2RBF", "R2LogRRBF"):
         from menpo.transform import rbf
